@@ -107,12 +107,12 @@ Definition ref_step (f : rfile) (op : fop) : rfile * fobs :=
   end.
 
 (* ---- which calls the property speaks about -------------------------------- *)
-(* Text: appending writes; seeks to a position inside the data, 0 <= target <= len,
-   whence 1/2 only with offset 0 (the only relative seeks io.StringIO has);
-   readline/readlines without a size.  Bytes (more than the property asks):
-   overwriting writes, seeks to ANY position >= 0 - also past the end of the data,
-   where reads return nothing, iteration stops and a write pads with zeros -,
-   relative seeks, readline(limit >= 1), readlines(hint).  readline(0) is left
+(* Both (more than the property asks): seeks to ANY position >= 0 - also past the
+   end of the data, where reads return nothing and iteration stops.  Text:
+   appending writes (position = length); whence 1/2 only with offset 0 (the only
+   relative seeks io.StringIO has); readline/readlines without a size.  Bytes:
+   overwriting writes (past the end a write pads with zeros), relative seeks,
+   readline(limit >= 1), readlines(hint).  readline(0) is left
    out (`if length:` treats it as "no limit"). *)
 Definition ref_pre (k : fkind) (f : rfile) (op : fop) : bool :=
   match op with
@@ -123,8 +123,7 @@ Definition ref_pre (k : fkind) (f : rfile) (op : fop) : bool :=
   | Seek off wh =>
       (wh <=? 2) && (0 <=? seek_target f off wh)%Z &&
       match k with
-      | KString => (seek_target f off wh <=? Z.of_nat (length (rf_data f)))%Z &&
-                   (Nat.eqb wh 0 || (off =? 0)%Z)
+      | KString => Nat.eqb wh 0 || (off =? 0)%Z
       | KBytes => true
       end
   | _ => true
